@@ -2,6 +2,16 @@
 import json, os
 V = os.path.dirname(os.path.dirname(os.path.abspath(__file__)))
 CLAIMED = {
+ "C13": dict(
+   text="Proof: for every break list, every list of positive counts and both spacings the edges exist, are strictly increasing, contain every break and have "
+        "sum(counts)+1 entries; bins built from them tile the range; lookup returns i iff lower_i <= m < upper_i and raises exactly outside; truncation changes "
+        "only the upper edge of the bin holding the turn-off mass; BH/WD/NS carving has the stated shape under stated hypotheses; pack and unpack are inverse "
+        "bijections with the documented blueprint - all by induction over lists of any length. The float instance of the same model is compared with MassBins on "
+        "generated layouts (int / list / dict forms, both spacings, real and stub IFMR bounds, edges on IFMR bounds).",
+   design="8/C13", technique="Coq proofs by list induction (real instance) + bit-exact float correspondence + property oracle on constructed MassBins",
+   note="Trusted: Coq kernel; Reals axioms listed in evidence; numpy.geomspace modelled mathematically (1e-12), linspace operation-by-operation; harness. "
+        "Dict-form remnant bins are exercised by the oracle only (not modelled). Open findings: edge at the NS mass, edge at the WD maximum, first break above the WD maximum."),
+
  "C12": dict(
    text="Proof: Coq theorems (Coquelicot) that the helper's closed form IS the Riemann integral of m^(a+k-1) on [m1,m2] in both branches, is positive, additive, "
         "brackets consecutive moments (mean mass inside the bin), has the stated derivative, returns NaN exactly below the threshold and on degenerate/inverted "
